@@ -49,6 +49,23 @@ Theorem double_adjoint_complex : forall e : oexpr (R * R), wf leaf_ok e -> wf le
 Proof. exact (double_adjoint_all cring_ok_C). Qed.
 Print Assumptions double_adjoint_complex.
 
+(* T1: the expression returned as adjoint of a good tree is again a well-formed tree with good
+   leaves ([leaf_good l] = [leaf_ok l] and the expression returned as l.adjoint has good leaves), so
+   A.adjoint.adjoint acts like A for every such tree without a premise on [adjoint e]. *)
+Theorem adjoint_well_formed_real : forall e : oexpr R, wf leaf_good e -> wf leaf_ok (adjoint e).
+Proof. exact (adjoint_wf cring_ok_R). Qed.
+Theorem adjoint_well_formed_complex : forall e : oexpr (R * R), wf leaf_good e -> wf leaf_ok (adjoint e).
+Proof. exact (adjoint_wf cring_ok_C). Qed.
+Theorem double_adjoint_good_real : forall e : oexpr R, wf leaf_good e ->
+  vconj (dom e) = dom e -> vconj (ran e) = ran e -> invertible (ran e) ->
+  forall x, length x = length (dom e) -> eval (adjoint (adjoint e)) x = eval e x.
+Proof. exact (double_adjoint_good cring_ok_R). Qed.
+Theorem double_adjoint_good_complex : forall e : oexpr (R * R), wf leaf_good e ->
+  vconj (dom e) = dom e -> vconj (ran e) = ran e -> invertible (ran e) ->
+  forall x, length x = length (dom e) -> eval (adjoint (adjoint e)) x = eval e x.
+Proof. exact (double_adjoint_good cring_ok_C). Qed.
+Print Assumptions double_adjoint_good_complex.
+
 (* ------------------------------------------------------------------------
    Built-in pairs.  Stated once for every carrier T that is a commutative ring
    with an involution and a partial division ([cring_ok]); the two carriers
@@ -144,6 +161,24 @@ Theorem pointwise_inner_adjoint_adjoint : forall (wb pw : list T) (g : list (lis
   Forall (fun p => nconj p = p /\ p <> nzero) pw -> Forall (fun o => nconj o = o) ow ->
   vconj wb = wb -> leaf_ok (LPtInnerAdj wb pw g ow).
 Proof. exact (leaf_ok_ptinner_adj OK). Qed.
+(* the built-ins above are [leaf_good] under the same preconditions (their adjoints are again such built-ins) *)
+Theorem builtin_leaves_good :
+  (forall (w : list T) s, leaf_good (LScaling w s)) /\
+  (forall w v : list T, length v = length w -> leaf_good (LMultiply w v)) /\
+  (forall wd wr : list T, leaf_good (LZero wd wr)) /\
+  (forall w v : list T, length v = length w -> vconj w = w -> leaf_good (LInner w v)) /\
+  (forall w v : list T, length v = length w -> vconj w = w -> leaf_good (LMulField w v)) /\
+  (forall (c : T) n m (M : list (list T)), rect n M -> length M = m -> leaf_good (LMatrix (repeat c n) (repeat c m) M)) /\
+  (forall (cv : T) n idx b, Forall (fun i => (i < n)%nat) idx -> nconj cv = cv -> cv <> nzero ->
+     leaf_good (LSampling (repeat cv n) idx b cv) /\ leaf_good (LWSum (repeat cv n) idx b cv) /\
+     leaf_good (LFlatten (repeat cv n) idx cv) /\ leaf_good (LUnflatten (repeat cv n) idx cv)).
+Proof.
+  exact (conj (leaf_good_scaling OK) (conj (leaf_good_multiply OK) (conj (leaf_good_zero OK)
+        (conj (leaf_good_inner OK) (conj (leaf_good_mulfield OK) (conj (leaf_good_matrix_const OK)
+        (fun cv n idx b H1 H2 H3 => conj (leaf_good_sampling OK cv n idx b H1 H2 H3)
+           (conj (leaf_good_wsum OK cv n idx b H1 H2 H3)
+           (conj (leaf_good_flatten OK cv n idx H1 H2 H3) (leaf_good_unflatten OK cv n idx H1 H2 H3)))))))))).
+Qed.
 End Builtins.
 Print Assumptions scaling_adjoint.
 Print Assumptions matrix_adjoint_partial.
@@ -151,6 +186,7 @@ Print Assumptions sampling_adjoint_partial.
 Print Assumptions flattening_adjoint_partial.
 Print Assumptions component_projection_adjoint_partial.
 Print Assumptions pointwise_inner_adjoint.
+Print Assumptions builtin_leaves_good.
 
 (* PartialDerivative on a 1-d discretisation: the operator named by the regenerated
    _ADJ_METHOD/_ADJ_PADDING tables, negated, IS the adjoint for all 30 (method, padding)
@@ -242,4 +278,13 @@ Proof.
   - change (dom ex_tree) with [c1; c1]. unfold vconj; cbn [map]. rewrite Hc1. reflexivity.
   - change (ran ex_tree) with [c1; c1; c1]. unfold vconj; cbn [map]. rewrite Hc1. reflexivity.
   - change (ran ex_tree) with [c1; c1; c1]. repeat constructor; exists c1; cbn; unfold cx_mul; cbn; f_equal; lra.
+Qed.
+Example ex_tree_good : wf leaf_good ex_tree.
+Proof.
+  cbn [ex_tree wf]. repeat match goal with |- _ /\ _ => split end; try reflexivity; try discriminate; try exact I.
+  - exact (leaf_good_matrix_const cring_ok_C c1 2 2 _ ltac:(repeat constructor) eq_refl).
+  - apply (leaf_good_scaling cring_ok_C).
+  - apply (leaf_good_multiply cring_ok_C); reflexivity.
+  - apply (leaf_good_zero cring_ok_C).
+  - repeat constructor.
 Qed.
